@@ -1,7 +1,17 @@
 module verif
 
-go 1.21
+go 1.22.0
 
-require github.com/google/wuffs v0.0.0
+toolchain go1.23.5
+
+require (
+	github.com/google/wuffs v0.0.0
+	golang.org/x/tools v0.29.0
+)
+
+require (
+	golang.org/x/mod v0.22.0 // indirect
+	golang.org/x/sync v0.11.0 // indirect
+)
 
 replace github.com/google/wuffs => /repo
